@@ -46,12 +46,21 @@ structure FreshRec (σ : Store) (pend : List (Key × Val)) (k : Key) : Prop wher
   disc : ∀ d v, (d, v) ∈ σ.disc k →
       (σ.res d).value = v ∨ (σ.res k).builtAt < (σ.res d).computedAt ∨ (d, v) ∈ pend
 
+/-- the same statement for a record of one store (`ρ`) read against the values of another (`σ`):
+used for database rows against the in-memory values -/
+structure CrossFresh (ρ σ : Store) (pend : List (Key × Val)) (k : Key) : Prop where
+  seq : ∀ q v, (q, v) ∈ ρ.seq k → q.kind = 0 →
+      (σ.res q.key).value = v ∨ (ρ.res k).builtAt < (σ.res q.key).computedAt
+  disc : ∀ d v, (d, v) ∈ ρ.disc k →
+      (σ.res d).value = v ∨ (ρ.res k).builtAt < (σ.res d).computedAt ∨ (d, v) ∈ pend
+
 def active (s : St) : Prop := s.started = true
 
 structure TaskOk (P : Program) (s : St) (k : Key) : Prop where
   issued : (s.task k).issued = issuedAfter P k (s.task k).seq
   valid : validSeq P k (s.task k).seq = true
   inputs : ∀ q v, (q, v) ∈ (s.task k).seq → q.kind = 0 → s.status q.key = .done ∧ (s.mem.res q.key).value = v
+  running : s.status k = .running → (s.task k).completed = false
   computing : s.status k = .computing →
       completeSeq P k (s.task k).seq = true ∧ (s.task k).discs = P.disc k (recvOf (s.task k).seq) ∧
       ((s.task k).completed = true → (s.mem.res k).value = P.out k s.env (recvOf (s.task k).seq))
@@ -60,7 +69,8 @@ structure Inv (P : Program) (s : St) : Prop where
   memE : ∀ k, (s.mem.res k).builtAt ≤ s.epoch ∧ (s.mem.res k).computedAt ≤ s.epoch
   dbE : ∀ k, (s.db.res k).builtAt ≤ s.epoch ∧ (s.db.res k).computedAt ≤ s.epoch
   iterLe : s.dbIter ≤ s.epoch
-  iterEq : s.target = none → s.dbIter = s.epoch
+  iterEq : s.target = none ∨ s.started = false → s.dbIter = s.epoch
+  pendIdle : s.target = none → s.pending = []
   startedPos : s.started = true → 0 < s.epoch
   startedTarget : s.started = true → s.target.isSome = true
   notStarted : s.target.isSome = true → s.started = false → ∀ k, s.status k = .idle
@@ -74,6 +84,7 @@ structure Inv (P : Program) (s : St) : Prop where
   good : ∀ k, (s.mem.res k).builtAt ≠ 0 → inflight s k = false →
       GoodRec P s.mem k ∧ FreshRec s.mem s.pending k
   dbGood : ∀ k, (s.db.res k).builtAt ≠ 0 → GoodRec P s.db k ∧ FreshRec s.db s.pending k
+  dbCross : ∀ k, (s.db.res k).builtAt ≠ 0 → CrossFresh s.db s.mem s.pending k
   memDb : ∀ k, (s.mem.res k).builtAt ≠ 0 → inflight s k = false →
       (s.db.res k).builtAt ≠ 0 ∧ (s.db.res k).value = (s.mem.res k).value ∧
       (s.db.res k).computedAt = (s.mem.res k).computedAt ∧ s.db.seq k = s.mem.seq k ∧
@@ -84,5 +95,8 @@ structure Inv (P : Program) (s : St) : Prop where
   /-- the in-memory record of a running rule keeps the value/epoch of its last completed execution
   or of a completion not yet processed; either way its `computedAt` bounds hold (memE) -/
   inflightActive : ∀ k, inflight s k = true → active s
+  validOk : ∀ k, s.status k = .scanning → s.validSeen k = some true →
+      P.valid s.env k (s.mem.res k).value = true ∧ (s.mem.res k).builtAt ≠ 0
+  validIdle : s.target.isSome = true → ∀ k, s.status k = .idle → s.validSeen k = none
 
 end LLBuild.Engine
